@@ -123,6 +123,7 @@ struct World
 static World * W = NULL;
 
 static bool do_cop(const COp & o, bool inCallback);
+static void check_inv(bool quiescent);   // developer aid (env PULSE_INVCHECK): the invariants the Coq proofs rest on, evaluated on the real objects
 
 class HNode : public PulseNode
 {
@@ -142,17 +143,19 @@ public:
       if (prev != w.sReq[_id]) w.fail("GetPulseTime received a previous value that is not what the node returned last");
       if ((w.topRoot >= 0)&&(now != w.topNow)) w.fail("GetPulseTime received a wrong callback time");
       w.sStale[_id] = false; w.sTaint[_id] = false;
+      check_inv(false);
       uint64 ret;
       const int savedCb = w.cbNode; w.cbNode = _id; w.inGetCallback = true;
       if (k < (int) w.gtab[_id].size())
       {
          const GEnt & g = w.gtab[_id][k];
          ret = eval_tspec(g.t, now, prev);
-         for (size_t i=0; i<g.prog.size(); i++) {w.cbOps++; (void) do_cop(g.prog[i], true);}
+         for (size_t i=0; i<g.prog.size(); i++) {w.cbOps++; (void) do_cop(g.prog[i], true); check_inv(false);}
       }
       else ret = eval_tspec(w.dflt[_id], now, prev);
       w.cbNode = savedCb; w.inGetCallback = false;
       w.sReq[_id] = ret;
+      w.sStale[_id] = false;   // the value being returned is the node's current request, whatever the callback did to its own node meanwhile
       return ret;
    }
 
@@ -175,11 +178,12 @@ public:
       }
       w.pulsed.insert(_id);
       w.sStale[_id] = true;    // it has fired: it must be asked again
+      check_inv(false);
       const int savedCb = w.cbNode; w.cbNode = _id;
       if (k < (int) w.ptab[_id].size())
       {
          const Prog & p = w.ptab[_id][k];
-         for (size_t i=0; i<p.size(); i++) {w.cbOps++; (void) do_cop(p[i], true);}
+         for (size_t i=0; i<p.size(); i++) {w.cbOps++; (void) do_cop(p[i], true); check_inv(false);}
       }
       w.cbNode = savedCb;
    }
@@ -265,6 +269,25 @@ static bool do_cop(const COp & o, bool inCallback)
    return false;
 }
 
+static bool g_invcheck = false, g_pureGet = true;
+static void check_inv(bool quiescent)
+{
+   if (!g_invcheck) return;
+   World & w = *W;
+   for (int i=0; i<MAXID; i++)
+   {
+      HNode * x = N(i); if (!x) continue;
+      const int cl = x->_curList;
+      if ((x->_firstChild[PulseNode::LINKED_LIST_NEEDSRECALC])&&(cl != PulseNode::LINKED_LIST_NEEDSRECALC)&&(cl != -1)) w.fail("INV K1: a node with needs-recalc children is itself on a scheduled/unscheduled list");
+      if ((x->_myScheduledTimeValid)&&((cl == PulseNode::LINKED_LIST_SCHEDULED)||(cl == PulseNode::LINKED_LIST_UNSCHEDULED))&&(x->_aggregatePulseTime != muscleMin(x->_myScheduledTime, x->GetFirstScheduledChildTime()))) w.fail("INV K3: a valid listed node's aggregate is not min(own, first scheduled child)");
+      if ((cl == PulseNode::LINKED_LIST_SCHEDULED)&&(x->_aggregatePulseTime == NEVER)) w.fail("INV K4: scheduled with aggregate NEVER");
+      if ((cl == PulseNode::LINKED_LIST_UNSCHEDULED)&&(x->_aggregatePulseTime != NEVER)) w.fail("INV K4: unscheduled with finite aggregate");
+      if ((quiescent)&&(g_pureGet)&&(!x->_myScheduledTimeValid)&&(cl != PulseNode::LINKED_LIST_NEEDSRECALC)&&(cl != -1)) w.fail("INV K2: an invalid node is on a scheduled/unscheduled list at rest");
+      const PulseNode * prev = NULL;
+      for (const PulseNode * p = x->_firstChild[PulseNode::LINKED_LIST_SCHEDULED]; p; p = p->_nextSibling) {if ((prev)&&(prev->_aggregatePulseTime > p->_aggregatePulseTime)) w.fail("INV K5: scheduled list unsorted"); prev = p;}
+   }
+}
+
 class Mgr : public PulseNodeManager
 {
 public:
@@ -309,17 +332,18 @@ static void top_get(Mgr & mgr, int r, uint64 now)
    // oracle: the reported wake-up time is the minimum of what the attached nodes currently request,
    // and every attached node has been asked since it fired / was invalidated / was attached
    if (N(r) == NULL) return;   // the root destroyed itself
-   uint64 expect = NEVER; bool anyStale = false, anyPlainStale = false;
+   uint64 expect = NEVER; bool anyStale = false, anyTaint = false;
    for (int i=0; i<MAXID; i++) if ((N(i))&&(in_tree(i, r)))
    {
       if (w.sReq[i] < expect) expect = w.sReq[i];
-      if (w.sStale[i]) {anyStale = true; if (!w.sTaint[i]) anyPlainStale = true;}
+      if (w.sStale[i]) anyStale = true;
+      if (w.sTaint[i]) anyTaint = true;
    }
+   static const char * reent = "reentrant-recalc: a node invalidated or re-attached from inside a GetPulseTime() callback while its own GetPulseTimeAux could be on the stack is left invalid off the needs-recalc list: ";
    if (ops == 0)
    {
-      if (mn != expect) w.fail("recalculation sweep reported " + show_time(mn) + " but the minimum of the requested times is " + show_time(expect));
-      if (anyPlainStale) w.fail("stale-after-recalc: an attached node was not asked for its time by the recalculation sweep");
-      else if (anyStale) w.fail("reentrant-recalc: a node invalidated or re-attached from inside a GetPulseTime() callback while its own GetPulseTimeAux could be on the stack is left invalid off the needs-recalc list and is not asked again");
+      if (mn != expect) w.fail(std::string(anyTaint ? reent : "") + "recalculation sweep reported " + show_time(mn) + " but the minimum of the requested times is " + show_time(expect));
+      if (anyStale) w.fail(std::string(anyTaint ? reent : "") + "stale-after-recalc: an attached node was not asked for its time by the recalculation sweep");
       if ((mn == expect)&&(!anyStale)) w.freshRoot = r;
    }
    else if (mn > expect) w.fail("recalculation sweep (with re-entrant callbacks) reported " + show_time(mn) + " which is later than the minimum requested time " + show_time(expect));
@@ -339,7 +363,11 @@ static void top_pulse(Mgr & mgr, int r, uint64 now, bool fresh)
    // oracle: exactly the due nodes fire (when the tree was freshly recalculated and no callback restructured it)
    if ((fresh)&&(ops == 0)&&(pulsed != due))
    {
-      std::ostringstream o; o << "pulse sweep at " << show_time(now) << " fired {";
+      bool tainted = false;
+      for (std::set<int>::const_iterator it = due.begin(); it != due.end(); ++it) if ((!pulsed.count(*it))&&(w.sTaint[*it])) tainted = true;
+      std::ostringstream o;
+      if (tainted) o << "reentrant-recalc: a node invalidated or re-attached from inside a GetPulseTime() callback while its own GetPulseTimeAux could be on the stack is left invalid off the needs-recalc list: ";
+      o << "pulse sweep at " << show_time(now) << " fired {";
       for (std::set<int>::const_iterator it = pulsed.begin(); it != pulsed.end(); ++it) o << *it << " ";
       o << "} but the due nodes are {";
       for (std::set<int>::const_iterator it = due.begin(); it != due.end(); ++it) o << *it << " ";
@@ -416,6 +444,7 @@ static void run_case(int k, const std::string & head, const std::string & body)
    w.k = k; w.evFirst = true; w.topRoot = -1; w.cbNode = -1; w.cbOps = 0; w.topNow = 0; w.inPulseSweep = false; w.freshRoot = -1; w.opIndex = 0;
    for (int i=0; i<MAXID; i++) {w.nodes[i] = NULL; w.ngt[i] = w.npl[i] = 0; w.hadChild[i] = false; w.sReq[i] = NEVER; w.sStale[i] = true; w.sTaint[i] = false; w.sParent[i] = -1;}
    w.inGetCallback = false;
+   g_pureGet = (head.find('~') == std::string::npos) || (getenv("PULSE_INVCHECK") && getenv("PULSE_INVCHECK")[0] == '2');
    std::vector<std::string> items = split(head, ' ');
    for (size_t i=0; i<items.size(); i++)
    {
@@ -472,6 +501,7 @@ static void run_case(int k, const std::string & head, const std::string & body)
          else (void) do_cop(parse_cop(s), false);
          out << " " << w.ev.str() << ";";
          dump_and_check(out);
+         check_inv(true);
       }
       // tear-down in id order (exercises ~PulseNode on whatever shape is left)
       for (int i=0; i<MAXID; i++) if (w.nodes[i]) {HNode * x = w.nodes[i]; w.nodes[i] = NULL; delete x;}
@@ -489,6 +519,7 @@ static void run_case(int k, const std::string & head, const std::string & body)
 
 int main()
 {
+   g_invcheck = (getenv("PULSE_INVCHECK") != NULL);
    std::string line;
    int k = 0;
    while(std::getline(std::cin, line))
